@@ -72,13 +72,6 @@ fn all_cols() -> Vec<Column> {
     v
 }
 
-fn col_by_id(id: u32) -> Column {
-    all_cols()
-        .into_iter()
-        .find(|c| c.id() == id)
-        .expect("column used by the generator")
-}
-
 /// all strings over ALPHA with length 0..=max
 fn strings(max: usize) -> Vec<Bytes> {
     let mut out = vec![vec![]];
@@ -159,32 +152,39 @@ struct Backend {
     store: Option<Store>,
     dir: Option<TempDir>,
     alive: bool,
+    cached: bool,
 }
 
-fn cfg() -> DatabaseConfig {
-    DatabaseConfig::config_for_tests()
+/// `cached == false`: the repo's test configuration (no block cache);
+/// `cached == true`: block + row cache as in production configurations
+fn cfg(cached: bool) -> DatabaseConfig {
+    let mut c = DatabaseConfig::config_for_tests();
+    if cached {
+        c.cache_capacity = Some(6 * 1024 * 1024);
+    }
+    c
 }
 
-fn open_store(fam: &str, policy: Option<StateRewindPolicy>, path: Option<&Path>) -> Result<Store, String> {
+fn open_store(fam: &str, policy: Option<StateRewindPolicy>, path: Option<&Path>, cached: bool) -> Result<Store, String> {
     match fam {
         "memory" => Ok(Store::Mem(MemoryStore::<OnChain>::default())),
-        "rocksdb" => RocksDb::<OnChain>::default_open(path.unwrap(), cfg())
+        "rocksdb" => RocksDb::<OnChain>::default_open(path.unwrap(), cfg(cached))
             .map(Store::Rocks)
             .map_err(|e| format!("{e:?}")),
-        _ => HistoricalRocksDB::<OnChain>::default_open(path.unwrap(), policy.unwrap(), cfg())
+        _ => HistoricalRocksDB::<OnChain>::default_open(path.unwrap(), policy.unwrap(), cfg(cached))
             .map(Store::Hist)
             .map_err(|e| format!("{e:?}")),
     }
 }
 
 impl Backend {
-    fn new(fam: &'static str, policy: Option<StateRewindPolicy>, scratch: &Path) -> Result<Self, String> {
+    fn new(fam: &'static str, policy: Option<StateRewindPolicy>, scratch: &Path, cached: bool) -> Result<Self, String> {
         let dir = if fam == "memory" {
             None
         } else {
             Some(TempDir::new_in(scratch).map_err(|e| format!("tempdir: {e}"))?)
         };
-        let store = open_store(fam, policy, dir.as_ref().map(|d| d.path()))?;
+        let store = open_store(fam, policy, dir.as_ref().map(|d| d.path()), cached)?;
         let name = match policy {
             None => fam.to_string(),
             Some(StateRewindPolicy::NoRewind) => format!("{fam}(NoRewind)"),
@@ -198,6 +198,7 @@ impl Backend {
             store: Some(store),
             dir,
             alive: true,
+            cached,
         })
     }
 
@@ -210,6 +211,7 @@ impl Backend {
             self.fam,
             self.policy,
             self.dir.as_ref().map(|d| d.path()),
+            self.cached,
         )?);
         Ok(())
     }
@@ -311,20 +313,31 @@ struct Params {
     pair_queries: usize,
     /// fraction (percent) of the prefix/start families queried per commit
     family_percent: u32,
+    /// all five rewind policies in every history (otherwise NoRewind, Full and
+    /// one rotating RewindRange size)
+    all_policies: bool,
+    /// close/reopen rounds per history (each RocksDB reopen costs a WAL replay
+    /// with an fsync per column family): thorough = 2 rounds over all backends,
+    /// quick = 1 round over the plain RocksDb and one history-keeping backend
+    reopen_rounds: usize,
 }
 
 fn params(thorough: bool) -> Params {
     if thorough {
         Params {
-            commits: 24,
+            commits: 60,
             pair_queries: 200,
             family_percent: 100,
+            all_policies: true,
+            reopen_rounds: 2,
         }
     } else {
         Params {
-            commits: 15,
+            commits: 40,
             pair_queries: 120,
             family_percent: 100,
+            all_policies: false,
+            reopen_rounds: 1,
         }
     }
 }
@@ -737,6 +750,114 @@ fn run_queries(rng: &mut StdRng, ctx: &mut Ctx, backends: &[Backend], model: &Mo
     }
 }
 
+/// `ChangesIterator` (the view of one change set used by the height lookup of
+/// commits and by the off-chain worker) iterates the inserted entries of a
+/// single `Changes` like a sorted map.
+fn check_changes_iterator(rng: &mut StdRng, ctx: &mut Ctx, commit: &Commit) {
+    use fuel_core_storage::{
+        iter::changes_iterator::ChangesIterator,
+        kv_store::KeyValueInspect,
+    };
+    let changes = commit.to_storage_changes();
+    let it = ChangesIterator::<Column>::new(&changes);
+    let mut inserted = Model::default();
+    for op in commit.ops() {
+        inserted.apply_op(op);
+    }
+    let both = [IterDirection::Forward, IterDirection::Reverse];
+    let touched: BTreeSet<u32> = commit.ops().map(|o| o.col).collect();
+    for col in all_cols() {
+        if !touched.contains(&col.id()) {
+            continue;
+        }
+        let colmap = inserted.col(col.id());
+        let mut queries: Vec<Query> = Vec::new();
+        for d in both {
+            queries.push(Query {
+                prefix: None,
+                start: None,
+                dir: d,
+            });
+        }
+        let candidates: Vec<Bytes> = commit
+            .ops()
+            .filter(|o| o.col == col.id())
+            .map(|o| o.key.clone())
+            .collect();
+        for _ in 0..10 {
+            let k = pick(rng, &candidates).clone();
+            let cut = rng.gen_range(0..=k.len());
+            let d = *pick(rng, &both);
+            let q = match rng.gen_range(0..3) {
+                0 => Query {
+                    prefix: Some(k[..cut].to_vec()),
+                    start: None,
+                    dir: d,
+                },
+                1 => Query {
+                    prefix: None,
+                    start: Some(k.clone()),
+                    dir: d,
+                },
+                _ => Query {
+                    prefix: Some(k[..cut].to_vec()),
+                    start: Some(k.clone()),
+                    dir: d,
+                },
+            };
+            queries.push(q);
+        }
+        for q in &queries {
+            let expected = model_iter(&colmap, q.prefix.as_deref(), q.start.as_deref(), q.dir);
+            let expected_keys: Vec<Bytes> = expected.iter().map(|(k, _)| k.clone()).collect();
+            ctx.local.evals += 2;
+            ctx.local.add("changes_iterator.queries", 2);
+            let kv = iter_kv(&it, col, q.prefix.as_deref(), q.start.as_deref(), q.dir);
+            let keys = iter_keys(&it, col, q.prefix.as_deref(), q.start.as_deref(), q.dir);
+            let ok = matches!(&kv, Ok(Ok(o)) if *o == expected) && matches!(&keys, Ok(Ok(o)) if *o == expected_keys);
+            if !ok {
+                let d = format!(
+                    "ChangesIterator over {} (col={:?}, prefix={}, start={}, {}): expected {} observed iter_store={:?} iter_store_keys={:?}",
+                    commit.to_json(),
+                    col,
+                    hex_opt(q.prefix.as_deref()),
+                    hex_opt(q.start.as_deref()),
+                    dir_str(q.dir),
+                    hex_kvs(&expected),
+                    kv.map(|r| r.map(|o| hex_kvs(&o))),
+                    keys.map(|r| r.map(|o| hex_keys(&o))),
+                );
+                ctx.violation(
+                    format!(
+                        "iter_mismatch backend=changes_iterator mode={} dir={}",
+                        mode_of(q),
+                        dir_str(q.dir)
+                    ),
+                    d,
+                );
+            }
+        }
+        for op in commit.ops().filter(|o| o.col == col.id()) {
+            ctx.local.evals += 1;
+            let expected = inserted.get(col.id(), &op.key);
+            match catch(|| it.get(&op.key, col).map(|v| v.map(|v| v.to_vec())).map_err(|e| format!("{e}"))) {
+                Ok(Ok(o)) if o.as_ref() == expected => {}
+                other => {
+                    let d = format!(
+                        "ChangesIterator over {}: get(col {:?}, [{}]) = {:?}, expected {}",
+                        commit.to_json(),
+                        col,
+                        hexs(&op.key),
+                        other,
+                        hex_opt(expected.map(|v| v.as_slice()))
+                    );
+                    ctx.violation("get_mismatch backend=changes_iterator".to_string(), d);
+                }
+            }
+        }
+    }
+}
+
 fn read_col(b: &Backend, col: Column) -> Result<ColMap, String> {
     match iter_kv(b.iterable(), col, None, None, IterDirection::Forward) {
         Ok(Ok(kv)) => Ok(kv.into_iter().collect()),
@@ -808,13 +929,23 @@ fn run_history(args: &Args, report: &Report, ks: &KeySpace, shard: usize, shard_
             size: NonZeroU64::new(5).unwrap(),
         },
     ];
+    let cached = chance(&mut rng, 50);
+    ctx.local
+        .count(if cached { "histories.with_block_cache" } else { "histories.without_block_cache" });
     let mut backends = Vec::new();
     let mut specs: Vec<(&'static str, Option<StateRewindPolicy>)> = vec![("memory", None), ("rocksdb", None)];
-    for pol in policies {
-        specs.push(("historical", Some(pol)));
+    for (i, pol) in policies.into_iter().enumerate() {
+        // RocksDB opens are expensive (fsync per column family); the quick tier
+        // rotates the RewindRange size instead of opening all three
+        if p.all_policies || i < 2 || i == 2 + ((iteration as usize + shard) % 3) {
+            specs.push(("historical", Some(pol)));
+        }
     }
     for (fam, pol) in specs {
-        match Backend::new(fam, pol, &args.scratch) {
+        let t0 = std::time::Instant::now();
+        let opened = Backend::new(fam, pol, &args.scratch, cached);
+        ctx.local.add("time_us.open", t0.elapsed().as_micros() as u64);
+        match opened {
             Ok(b) => backends.push(b),
             Err(e) => {
                 report.inconclusive(format!("cannot open backend {fam}: {e}"));
@@ -826,6 +957,16 @@ fn run_history(args: &Args, report: &Report, ks: &KeySpace, shard: usize, shard_
     let mut height: u32 = rng.gen_range(0..3);
     let hot = hot_keys(&mut rng);
     let conflict_history = chance(&mut rng, 6);
+    // two reopen rounds per history, somewhere in the second and last third
+    let reopen_at: Vec<usize> = if p.reopen_rounds >= 2 {
+        vec![
+            rng.gen_range(p.commits / 3..2 * p.commits / 3),
+            rng.gen_range(2 * p.commits / 3..p.commits - 2),
+        ]
+    } else {
+        vec![rng.gen_range(p.commits / 3..p.commits - 5)]
+    };
+    let reopen_pick = rng.gen_range(0..8usize);
     // (backend index, snapshot, model at snapshot time)
     let mut snapshots: Vec<(usize, Box<dyn IterableStore<Column = Column>>, Model)> = Vec::new();
     let mut sampled = false;
@@ -872,6 +1013,9 @@ fn run_history(args: &Args, report: &Report, ks: &KeySpace, shard: usize, shard_
         }
 
         model.apply(&commit);
+        if !commit.list {
+            check_changes_iterator(&mut rng, &mut ctx, &commit);
+        }
         for i in 0..backends.len() {
             if !backends[i].alive {
                 continue;
@@ -888,7 +1032,10 @@ fn run_history(args: &Args, report: &Report, ks: &KeySpace, shard: usize, shard_
             };
             let b = &backends[i];
             ctx.local.evals += 1;
-            match b.commit(h, &effective) {
+            let t0 = std::time::Instant::now();
+            let committed = b.commit(h, &effective);
+            ctx.local.add("time_us.commit", t0.elapsed().as_micros() as u64);
+            match committed {
                 Ok(Ok(())) => {
                     ctx.local.count("commits.accepted");
                 }
@@ -909,7 +1056,10 @@ fn run_history(args: &Args, report: &Report, ks: &KeySpace, shard: usize, shard_
                 }
             }
             // contents after the commit
-            match content_diff(b, &model) {
+            let t0 = std::time::Instant::now();
+            let diffed = content_diff(b, &model);
+            ctx.local.add("time_us.content_check", t0.elapsed().as_micros() as u64);
+            match diffed {
                 Err(e) => {
                     let d = format!("{}: reading the contents failed: {e}", b.name);
                     ctx.violation(format!("content_read_failed backend={}", b.fam), d);
@@ -1014,7 +1164,9 @@ fn run_history(args: &Args, report: &Report, ks: &KeySpace, shard: usize, shard_
                 }
             }
         }
+        let t0 = std::time::Instant::now();
         run_queries(&mut rng, &mut ctx, &backends, &model, col, p);
+        ctx.local.add("time_us.queries", t0.elapsed().as_micros() as u64);
 
         if !sampled && report.wants_sample() && step == 3 {
             sampled = true;
@@ -1028,10 +1180,24 @@ fn run_history(args: &Args, report: &Report, ks: &KeySpace, shard: usize, shard_
 
         // reopen the RocksDB-based backends now and then (moves data from the
         // memtable/WAL into SST files with bloom filters)
-        if !is_last && chance(&mut rng, 14) {
+        if !is_last && reopen_at.contains(&step) {
             ctx.local.count("reopen_rounds");
+            let n_hist = backends.iter().filter(|b| b.fam == "historical").count().max(1);
+            let mut hist_idx = 0;
             for b in backends.iter_mut().filter(|b| b.alive) {
-                if let Err(e) = b.reopen() {
+                if b.fam == "historical" {
+                    hist_idx += 1;
+                    if p.reopen_rounds < 2 && (hist_idx - 1) != reopen_pick % n_hist {
+                        continue;
+                    }
+                }
+                if b.fam != "memory" {
+                    ctx.local.count(&format!("reopens.{}", b.fam));
+                }
+                let t0 = std::time::Instant::now();
+                let reopened = b.reopen();
+                ctx.local.add("time_us.reopen", t0.elapsed().as_micros() as u64);
+                if let Err(e) = reopened {
                     report.inconclusive(format!("reopen of {} failed: {e}", b.name));
                     b.alive = false;
                 }
@@ -1070,7 +1236,11 @@ pub fn run(args: &Args, report: &Report) {
     }
     let p = params(args.is_thorough());
     let shards = 16usize;
-    let per_shard: u64 = args.by_tier(10, 110);
+    let per_shard: u64 = args
+        .extra
+        .get("per-shard")
+        .and_then(|s| s.parse().ok())
+        .unwrap_or(args.by_tier(3, 12));
     let args2 = args.clone();
     let report2 = report.clone();
     run_shards(report, args, shards, move |shard, shard_seed| {
@@ -1085,20 +1255,20 @@ pub fn run(args: &Args, report: &Report) {
 fn finish(args: &Args, report: &Report, selftest: u32, replay: bool) {
     if !replay {
         let t = |q: u64, th: u64| args.by_tier(q, th);
-        report.require("histories", t(120, 1200));
-        report.require("commits.list_with_overlapping_columns", t(400, 5000));
-        report.require("queries.prefix.reverse.nonempty", t(50_000, 500_000));
-        report.require("queries.prefix.forward.nonempty", t(50_000, 500_000));
-        report.require("queries.start.reverse.nonempty", t(50_000, 500_000));
-        report.require("queries.start.forward.nonempty", t(50_000, 500_000));
-        report.require("queries.prefix+start.forward.nonempty", t(10_000, 100_000));
-        report.require("queries.prefix+start.reverse.nonempty", t(10_000, 100_000));
-        report.require("queries.reverse_prefix.nonempty.prefix_ends_with_ff", t(2_000, 20_000));
-        report.require("queries.reverse_prefix.nonempty.successor_key_present", t(500, 5_000));
-        report.require("queries.on_prefix_extractor_column", t(50_000, 500_000));
-        report.require("reopen_rounds", t(60, 600));
-        report.require("snapshot_view.column_checks", t(2_000, 20_000));
-        report.require("point_reads", t(100_000, 1_000_000));
+        report.require("histories", t(24, 150));
+        report.require("commits.list_with_overlapping_columns", t(300, 1500));
+        report.require("queries.prefix.reverse.nonempty", t(80_000, 400_000));
+        report.require("queries.prefix.forward.nonempty", t(80_000, 400_000));
+        report.require("queries.start.reverse.nonempty", t(300_000, 1_500_000));
+        report.require("queries.start.forward.nonempty", t(300_000, 1_500_000));
+        report.require("queries.prefix+start.forward.nonempty", t(60_000, 300_000));
+        report.require("queries.prefix+start.reverse.nonempty", t(60_000, 300_000));
+        report.require("queries.reverse_prefix.nonempty.prefix_ends_with_ff", t(2_000, 10_000));
+        report.require("queries.reverse_prefix.nonempty.successor_key_present", t(1_000, 5_000));
+        report.require("queries.on_prefix_extractor_column", t(50_000, 250_000));
+        report.require("reopen_rounds", t(24, 250));
+        report.require("snapshot_view.column_checks", t(2_000, 10_000));
+        report.require("point_reads", t(300_000, 1_500_000));
     }
     if selftest > 0 && report.violation_count() == 0 {
         report.inconclusive(format!("selftest {selftest}: the perturbation was not detected"));
